@@ -6,7 +6,7 @@ Opnds == {<<>>, <<1>>, <<2, 1>>, <<3, 4>>, <<1, 1>>, <<2, 3, 2>>}
 OpLists == {<<>>} \cup {<<a>> : a \in Opnds} \cup (IF Opnds2 THEN {<<a, b>> : a \in Opnds, b \in {<<2, 1>>, <<3, 4>>, <<1, 3>>}} ELSE {})
 Ops == {Op(n, x, <<>>) : n \in {"add", "remove", "discard"}, x \in Atoms}
   \cup {Op("pop", i, <<>>) : i \in (-L..(L - 1)) \cup {NONE}}
-  \cup {Op(n, 0, <<>>) : n \in {"clear", "sort", "reverse", "copy_ctor"}}
+  \cup {Op(n, 0, <<>>) : n \in {"clear", "sort", "reverse", "copy_ctor", "sort_rev", "sort_key", "sort_key_rev"}}
   \cup {Op(n, 0, ol) : n \in {"update", "intersection_update", "difference_update", "union", "intersection", "difference"}, ol \in OpLists}
   \cup {Op(n, 0, <<a>>) : n \in {"symmetric_difference_update", "symmetric_difference", "rsub", "issubset", "issuperset", "isdisjoint"}, a \in Opnds}
 VARIABLES st, last
